@@ -12,7 +12,9 @@
    overwritten by every auction that ran the strategy.  The harness checks this: the 2nd-4th
    auction on a used strategy instance and blockrelay service is compared with this same model.
    The one legitimate memory -- BuilderBid answering from the cache for a key auctioned before --
-   is [serve_cached] below, within one case (modes MAuction / MQuery).
+   is [serve_cached] below, within one case (modes MAuction / MQuery), and [late_queries]: the
+   BuilderBid calls made for that key after the auction has closed, when the relays may answer
+   differently (the harness runs them on the same service with a second script per relay).
 
    Data: wei values are [N]; scores, offsets, factors and all times (milliseconds since the
    auction was started) are [Z]; [nat] only indexes scripts.  Relays, builders, relay keys,
